@@ -54,7 +54,7 @@ def run(pid, tier, replay):
     chk.add("mc_states", g.distinct)
     obs = chk.path("obs.ndjson")
     core.run_bin(binp, ["addr-obs", cases, obs])
-    nr = 4000 if quick else 150000
+    nr = 3000 if quick else 150000
     robs = chk.path("obs_rand.ndjson")
     core.run_bin(binp, ["addr-rand", nr, chk.seed, robs])
     n_enum = sum(1 for _ in open(obs))
@@ -63,7 +63,7 @@ def run(pid, tier, replay):
     with open(obs, "a") as f, open(robs) as g2:
         for line in g2:
             f.write(line)
-    out, lines = rm.validate(chk, "AddrCheck", obs, shards=10)
+    out, lines = rm.validate(chk, "AddrCheck", obs, shards=4 if quick else 14)
     classify(chk, out["MISMATCH"], lines)
     chk.add("enumerated_cases", n)
     chk.add("random_cases", len(lines) - n)
